@@ -29,9 +29,11 @@ CONTAINER_ONLY = {"add", "update", "pop", "remove", "discard", "clear", "sort", 
 
 
 class Store:
-    __slots__ = ("file", "func", "line", "kind", "target", "base", "cls", "owner")
+    __slots__ = ("file", "func", "line", "kind", "target", "base", "cls", "owner", "pidx", "own_star")
 
-    def __init__(self, file, func, line, kind, target, base, cls, owner):
+    def __init__(self, file, func, line, kind, target, base, cls, owner, pidx=None, own_star=False):
+        self.pidx = pidx  # position of the base among the function's positional parameters (None: not a parameter)
+        self.own_star = own_star  # the base is the function's own *args / **kwargs (an object created for this call)
         self.file = file
         self.func = func
         self.line = line
@@ -90,6 +92,9 @@ class FunctionEffects(ast.NodeVisitor):
         self.owner = owner
         self.fn = fn
         self.params = set(params)
+        a_ = getattr(fn, "args", None)
+        self.positional = [x.arg for x in (a_.posonlyargs + a_.args)] if a_ is not None else []
+        self.star_names = {x.arg for x in (a_.vararg, a_.kwarg) if x is not None} if a_ is not None else set()
         self.module_names = module_names
         self.assigned: dict[str, list] = {}
         self.stores: list[Store] = []
@@ -169,7 +174,8 @@ class FunctionEffects(ast.NodeVisitor):
             c = "self-slot" if depth == 1 and isinstance(target, ast.Attribute) else "self-deep"
             if depth == 1 and isinstance(target, ast.Subscript):
                 c = "self-item"
-        self.stores.append(Store(self.file, self.qual, getattr(node, "lineno", 0), kind, unparse(target)[:80], base, c, self.owner))
+        self.stores.append(Store(self.file, self.qual, getattr(node, "lineno", 0), kind, unparse(target)[:80], base, c, self.owner,
+                                 self.positional.index(base) if base in self.positional else None, base in self.star_names))
 
     def visit_FunctionDef(self, node):
         return  # nested functions are analysed separately
@@ -289,3 +295,38 @@ def analyse_repo(repo):
     for p in all_source_files(repo):
         out.extend(analyse_file(p, repo))
     return out
+
+
+def helper_call_sites(repo):
+    """{(file, helper name): [[freshness of positional argument i in the caller, ...] per call site]} for calls `name(...)` to
+    module-level functions of the same file; freshness: 'fresh' (allocated in the caller, or the caller's own *args/**kwargs), else 'borrowed'"""
+    sites: dict = {}
+    for p in all_source_files(repo):
+        tree = parse_file(p)
+        relp = rel(p, repo)
+        top = {st.name for st in tree.body if isinstance(st, (ast.FunctionDef, ast.AsyncFunctionDef))}
+
+        def visit_fn(fn, qual):
+            params = [a.arg for a in fn.args.posonlyargs + fn.args.args + fn.args.kwonlyargs]
+            stars = {x.arg for x in (fn.args.vararg, fn.args.kwarg) if x is not None}
+            fe = FunctionEffects(relp, qual, None, fn, params + sorted(stars), {"containers": set()})
+            for node in ast.walk(fn):
+                if isinstance(node, ast.Call) and isinstance(node.func, ast.Name) and node.func.id in top:
+                    fr = []
+                    for a in node.args:
+                        if isinstance(a, ast.Name):
+                            fr.append("fresh" if (a.id in stars or fe.classify(a.id) == "fresh") else "borrowed")
+                        else:
+                            fr.append("fresh" if _is_alloc(a) else "borrowed")
+                    sites.setdefault((relp, node.func.id), []).append(fr)
+
+        def walk(body, prefix):
+            for st in body:
+                if isinstance(st, (ast.FunctionDef, ast.AsyncFunctionDef)):
+                    visit_fn(st, prefix + st.name)
+                    walk(st.body, prefix + st.name + ".<locals>.")
+                elif isinstance(st, ast.ClassDef):
+                    walk(st.body, prefix + st.name + ".")
+
+        walk(tree.body, "")
+    return sites
